@@ -323,6 +323,15 @@ class Universe:
                     store_metadata(p, self.data_ok(B), f), retrieve_metadata(p, f), delete_metadata(p, f),
                     retrieve_metadata(p, f), store_metadata(p, self.data_ok(A), f), retrieve_metadata(p, f),
                     store_metadata(q, self.data_ok(B), f), delete_object(p), retrieve_metadata(p, f), retrieve_metadata(q, f)])
+        # references that exist before the bytes do: two pids tagged, one deleted, the content arrives under a third
+        z = next((x for x in self.pids if x not in (p, q) and isinstance(x, str) and x.strip() == x and x and " " not in x), "zz")
+        out.append([tag_object(p, cidA), tag_object(q, cidA), retrieve_object(q), delete_object(p), store_object(z, self.data_ok(A)),
+                    retrieve_object(q), retrieve_object(z), delete_object(z), retrieve_object(q), get_hex_digest(q, a1)])
+        # a pid's documents deleted as a whole and stored again; then another pid's documents deleted as a whole
+        out.append([store_metadata(p, self.data_ok(A), f), store_metadata(p, self.data_ok(B), None), delete_metadata(p, None),
+                    store_metadata(p, self.data_ok(B), f), store_metadata(p, self.data_ok(A), None), store_metadata(q, self.data_ok(A), f),
+                    delete_metadata(q, None), retrieve_metadata(p, f), retrieve_metadata(p, None), store_object(q, self.data_ok(A)),
+                    store_metadata(q, self.data_ok(B), f), delete_object(q), retrieve_metadata(p, f), retrieve_metadata(p, None)])
         # stepwise path: data only, tag, delete, and again
         out.append([store_object(None, self.data_ok(A)), tag_object(p, cidA), retrieve_object(p), get_hex_digest(p, a1),
                     delete_object(p), retrieve_object(p), store_object(None, self.data_ok(A)), tag_object(q, cidA),
